@@ -302,7 +302,24 @@ func c19Open(att p9.Attacher, path []string) (root, dir p9.File, err error) {
 
 func c19Direct(c *ev.Ctx, f *c19fs, nl int) {
 	n := len(f.names)
-	counts := []uint32{1, 2, 7, uint32(maxI(n-1, 1)), uint32(maxI(n, 1)), uint32(n + 1), 1<<32 - 1}
+	// File.Readdir's count is "as many as fit in count": the implementations
+	// here read it as a number of entries. Small counts are only meaningful
+	// under that reading ("as long as one entry fits"): probe it.
+	entrySemantics := false
+	if n > 0 {
+		if _, dir, err := c19Open(f.att, f.path); err == nil {
+			if _, _, err := dir.Open(p9.ReadOnly); err == nil {
+				if d, err := dir.Readdir(0, 1); err == nil && len(d) == 1 {
+					entrySemantics = true
+				}
+			}
+			dir.Close()
+		}
+	}
+	counts := []uint32{300, 301, 4096, uint32(300 * maxI(n, 1)), 1<<32 - 1}
+	if entrySemantics {
+		counts = append(counts, 1, 2, 7, uint32(maxI(n-1, 1)), uint32(maxI(n, 1)), uint32(n+1))
+	}
 	for _, cnt := range counts {
 		_, dir, err := c19Open(f.att, f.path)
 		if err != nil {
